@@ -30,7 +30,7 @@
                       CPython; the names involved are only read
    [p_named pst]      CPython's live list data counted per NAME (an object bound to two names counts twice) *)
 From Coq Require Import ZArith List Bool.
-From RV Require Import Device.DList Device.DListProg Device.DListLen Proofs.DListP Proofs.DListProgP Proofs.C09P Proofs.DListLenP Proofs.DListShareP.
+From RV Require Import Device.DList Device.DListProg Device.DListLen Device.DListArm Proofs.DListP Proofs.DListProgP Proofs.C09P Proofs.DListLenP Proofs.DListShareP Proofs.DListArmP.
 Import ListNotations.
 
 (* ============================================================== the helper templates *)
@@ -471,3 +471,61 @@ Theorem C09_stale_len_first_call_repaired : len_ok stale_def_setup stale_def_bod
                  run_fw_t stale_def_setup stale_def_body [2]%Z = Safe st /\ f_live_cells st = p_live pst.
 Proof. exact stale_def_repaired. Qed.
 Print Assumptions C09_stale_len_first_call_repaired.
+
+(* ============================================================== sibling arms of one if / elif / else (try / except) statement *)
+
+(* The parser keeps its parse-time list copies as Python list objects, mutates them in place on append / remove of a
+   constant and parses every arm in `_branch_ctx()` / `_child_ctx()` = `_copy_const_env(snapshot)` (Device/DListArm.v: object
+   identity, one heap for all arms, arms parsed in source order).  For EVERY well-formed parser state (one object per
+   name), every snapshot [t] it represents and every list of arms: the lengths folded in the arms are, arm by arm, the
+   lengths the arm ALONE is folded with from the snapshot - nothing an earlier arm appends or removes reaches a later one *)
+Theorem C09_arms_folded_independently : forall arms e h t, Wf e h -> View e h t ->
+  snd (c_arms e h arms) = map (v_lens t) arms.
+Proof. exact arms_independent. Qed.
+Print Assumptions C09_arms_folded_independently.
+
+(* ... in particular: what is folded in arm k depends only on the statements in front of the statement and on arm k *)
+Theorem C09_arm_depends_on_snapshot_and_itself : forall arms arms' e h t k,
+  Wf e h -> View e h t -> nth k arms [] = nth k arms' [] -> (k < length arms)%nat -> (k < length arms')%nat ->
+  nth k (snd (c_arms e h arms)) [] = nth k (snd (c_arms e h arms')) [].
+Proof. exact arm_depends_on_snapshot_and_itself. Qed.
+Print Assumptions C09_arm_depends_on_snapshot_and_itself.
+
+(* the state the parser is in after the top-level statements [pre] is well-formed and represents the copies [track] computes *)
+Theorem C09_arms_after_setup : forall pre arms,
+  arm_lens pre arms = map (v_lens (fst (track false [] [] (ungated pre)))) arms.
+Proof. exact arm_lens_spec. Qed.
+Print Assumptions C09_arms_after_setup.
+
+(* per path: the lengths folded in arm k are the lengths the straight-line program "statements in front, then arm k" - the
+   program that runs when arm k is taken - is folded with; C09_len_fold_safe_partial applies to that program *)
+Theorem C09_taken_arm_folded_like_its_path : forall pre arms k, (k < length arms)%nat ->
+  block_lens [] (ungated (taken_path pre arms k)) = block_lens [] (ungated pre) ++ nth k (arm_lens pre arms) [].
+Proof. exact taken_path_lens. Qed.
+Print Assumptions C09_taken_arm_folded_like_its_path.
+
+Theorem C09_taken_arm_safe_partial : forall pre arms k body cs pst,
+  len_ok (taken_path pre arms k) body = true -> run_py_t (taken_path pre arms k) body cs = POk pst ->
+  exists st, run_fw_t (taken_path pre arms k) body cs = Safe st /\ wf_heap st /\ tight st /\ f_live_cells st = p_live pst.
+Proof. intros pre arms k. exact (len_fold_safe (taken_path pre arms k)). Qed.
+Print Assumptions C09_taken_arm_safe_partial.
+
+(* after the statement a name is folded iff NO arm writes it (then with the copy it had in front of the statement) *)
+Theorem C09_after_arms_forgets : forall t arms x, In x (arms_writes arms) -> t_cur (after_arms t arms) x = None.
+Proof. exact after_arms_forgets. Qed.
+Print Assumptions C09_after_arms_forgets.
+
+Theorem C09_after_arms_keeps : forall t arms x, ~ In x (arms_writes arms) -> t_cur (after_arms t arms) x = t_cur t x.
+Proof. exact after_arms_keeps. Qed.
+Print Assumptions C09_after_arms_keeps.
+
+(* l0 = [10, 20, 30]; l1 = [7, 8];  if ..: l0.append(40); l1.append(9); l1.append(10); l0[len(l0) - 1]  elif ..: l0[0]
+   else: l0[len(l0) - 1]; l1[len(l1) - 1]   - the else arm is folded with 3 and 2 ... *)
+Example C09_arms_nonvacuous : arm_lens arms_pre arms_demo = [[None; None; None; Some 4]; [None]; [Some 3; Some 2]]%nat.
+Proof. exact arms_demo_lens. Qed.
+Print Assumptions C09_arms_nonvacuous.
+
+(* ... whereas a parser that copies the environment ONCE per statement (every arm working on `dict(copy)`) folds it with 4 and 4 *)
+Example C09_arms_shared_copy_differs : arm_lens_shared arms_pre arms_demo = [[None; None; None; Some 4]; [None]; [Some 4; Some 4]]%nat.
+Proof. exact arms_demo_shared. Qed.
+Print Assumptions C09_arms_shared_copy_differs.
